@@ -1,0 +1,61 @@
+//go:build verif
+
+// Command pyscn-verif is a line-oriented driver used by the external
+// verification harness. It is only built with the "verif" build tag.
+// Each stdin line is a JSON object {"op": "<name>", ...}; each stdout line
+// is the JSON result of that request ({"error": "..."} on failure).
+package main
+
+import (
+	"bufio"
+	"encoding/json"
+	"fmt"
+	"os"
+)
+
+type opFunc func(raw json.RawMessage) (interface{}, error)
+
+var ops = map[string]opFunc{}
+
+func register(name string, f opFunc) { ops[name] = f }
+
+func runOp(name string, raw json.RawMessage) (res interface{}, err error) {
+	defer func() {
+		if r := recover(); r != nil {
+			err = fmt.Errorf("panic: %v", r)
+		}
+	}()
+	f, ok := ops[name]
+	if !ok {
+		return nil, fmt.Errorf("unknown op %q", name)
+	}
+	return f(raw)
+}
+
+func main() {
+	in := bufio.NewReaderSize(os.Stdin, 1<<20)
+	out := bufio.NewWriterSize(os.Stdout, 1<<20)
+	defer out.Flush()
+	enc := json.NewEncoder(out)
+	for {
+		line, err := in.ReadBytes('\n')
+		if len(line) > 1 {
+			var head struct {
+				Op string `json:"op"`
+			}
+			if jerr := json.Unmarshal(line, &head); jerr != nil {
+				_ = enc.Encode(map[string]string{"error": "bad request: " + jerr.Error()})
+			} else {
+				res, oerr := runOp(head.Op, json.RawMessage(line))
+				if oerr != nil {
+					_ = enc.Encode(map[string]string{"error": oerr.Error()})
+				} else {
+					_ = enc.Encode(res)
+				}
+			}
+		}
+		if err != nil {
+			break
+		}
+	}
+}
